@@ -152,8 +152,10 @@ static void finish_script(int id)
 	int i;
 	(void)id;
 	if (++done_count < nclients) return;
+	/* what the scripts left queued is still dispatched with the application free to act in the callbacks */
+	nanosleep(&ts, NULL);
 	W_free_choices = 0;
-	nanosleep(&ts, NULL); nanosleep(&ts, NULL);
+	nanosleep(&ts, NULL);
 	/* now every still connected client goes away */
 	for (i = 0; i < nclients; i++) if (c_dead[i] == 2 && CC[i]) w_close_fds_of(c_co[i]);
 	nanosleep(&ts, NULL); nanosleep(&ts, NULL);
